@@ -1068,7 +1068,7 @@ func (r *pyRange) TypeTag() int32 {
 }
 
 func (r *pyRange) IsTruthy() bool {
-	return true
+	return r.Len() > 0
 }
 
 func (r *pyRange) Operator(operator Operator, operand pyObject) pyObject {
